@@ -58,6 +58,12 @@ theorem fact_static_drift_calls :
     Karp.Gen.C03Pool.staticDriftCalls = ["GetNodeCount", "ReserveNodeCount"] ∧
     Karp.Gen.C03Pool.startCommandCalls = ["HasAny", "markDisrupted", "createReplacementNodeClaims", "MarkForDeletion"] := by decide
 
+/-- static drift never asks `ReserveNodeCount` for more slots than the NodePool being processed has drifted candidates
+    (`1`: the candidates of that pool, not those of all pools of the pass — the commands are then cut out of
+    `npCandidates[:granted]`), nor for more than that pool's disruption budget (`0`) -/
+theorem fact_static_drift_cap :
+    1 ∈ Karp.Gen.C03Pool.staticDriftCapArgs ∧ 0 ∈ Karp.Gen.C03Pool.staticDriftCapArgs := by decide
+
 /-- the cluster state forwards NodeClaim updates and deletions to the pool state -/
 theorem fact_cluster_forwards :
     Karp.Gen.C03Pool.clusterUpdateNodeClaimCalls = ["newStateFromNodeClaim", "NodePoolState.UpdateNodeClaim"] ∧
@@ -268,7 +274,58 @@ theorem C03_drift_round_gives_slots_back_partial (s : State) (replicas : Int) (l
     (driftRound s replicas limit budget cands [] createFail next).panicked = false ∧
     reservedOf (driftRound s replicas limit budget cands [] createFail next).st Karp.StaticPool.np
       = reservedOf s Karp.StaticPool.np :=
-  driftRound_gives_back s replicas limit budget cands createFail next h0
+  driftRound_gives_back fact_static_drift_cap.1 s replicas limit budget cands createFail next h0
+
+open Karp.StaticPool in
+/-- **C03_drift_pass_gives_slots_back** — one static-drift pass (`StaticDrift.ComputeCommands` over the candidates of
+    ALL NodePools, then `Queue.StartCommand` for every command) over any number of pools with any names, budgets, node
+    limits, candidates, failing replacement creates and — where the source gives the slot back on the early return —
+    vanishing candidate Nodes, from any state: as long as the pool's OWN candidate count is one of the arguments of the
+    cap on its drifts (`hcap`), cutting the commands out of the pool's candidates never goes out of range, no
+    `ReleaseNodeCount` meets a missing counter, and after the pass the reserved counter of EVERY pool is back where it
+    was: nothing stays blocked under any pool's node limit. -/
+theorem C03_drift_pass_gives_slots_back (args : List Nat) (hcap : 1 ∈ args) (pools : List PoolIn) (s : State)
+    (hE : ∀ P ∈ pools, P.lost ≠ [] → Karp.Gen.C03Pool.startCommandReleasesEarly = true)
+    (h0 : ∀ q, 0 ≤ reservedOf s q) :
+    (driftPass args s pools).panicked = false ∧ ∀ q, reservedOf (driftPass args s pools).st q = reservedOf s q :=
+  driftPass_gives_back args hcap pools s hE h0
+
+open Karp.StaticPool in
+/-- **C03_drift_pass_as_is** — the same for the cap the source has now (regenerated `staticDriftCapArgs`), with no
+    condition on the commands once the source releases on the early return of `StartCommand` -/
+theorem C03_drift_pass_as_is (hearly : Karp.Gen.C03Pool.startCommandReleasesEarly = true) (pools : List PoolIn)
+    (s : State) (h0 : ∀ q, 0 ≤ reservedOf s q) :
+    (driftPass Karp.Gen.C03Pool.staticDriftCapArgs s pools).panicked = false ∧
+    ∀ q, reservedOf (driftPass Karp.Gen.C03Pool.staticDriftCapArgs s pools).st q = reservedOf s q :=
+  driftPass_gives_back _ fact_static_drift_cap.1 pools s (fun _ _ _ => hearly) h0
+
+open Karp.StaticPool in
+/-- **C03_drift_pass_takes_at_most_own_candidates** — what `ComputeCommands` takes for one pool of the pass: at most as
+    many slots as the pool has drifted candidates, and only under this pool's counter. -/
+theorem C03_drift_pass_takes_at_most_own_candidates (args : List Nat) (hcap : 1 ∈ args) (all : Nat) (s : State)
+    (P : PoolIn) :
+    ∃ g, (computeOne args all s P).2 = some g ∧ g ≤ P.cands.length ∧
+      ∀ x, reservedOf (computeOne args all s P).1 x = if x = P.p then reservedOf s P.p + g else reservedOf s x := by
+  obtain ⟨g, h1, h2, _, _, h5⟩ := computeOne_spec args hcap all s P
+  exact ⟨g, h1, h2, h5⟩
+
+/-- two static pools (1, 2) with one launched, drifted NodeClaim each, replicas 1, `limits.nodes` 3, budget 2 -/
+def twoPoolsState : State := update (update State.init 1 101 false) 2 201 false
+def twoPools : List Karp.StaticPool.PoolIn :=
+  [{ p := 1, replicas := 1, limit := some 3, budget := 2, cands := [101], lost := [], createFail := [], next := 150 },
+   { p := 2, replicas := 1, limit := some 3, budget := 2, cands := [201], lost := [], createFail := [], next := 250 }]
+
+open Karp.StaticPool in
+/-- why `hcap` is needed: were the cap the number of candidates of ALL pools of the pass (class 2) instead of the pool's
+    own, the first pool would be granted 2 slots for 1 candidate: the pass panics (slice bounds) and the 2 slots stay
+    reserved under that pool's node limit.  With the pool's own count both nodes are replaced and nothing stays. -/
+theorem C03_drift_cap_all_candidates_witness :
+    (driftPass [0, 2] twoPoolsState twoPools).panicked = true ∧
+    reservedOf (driftPass [0, 2] twoPoolsState twoPools).st 1 = 2 ∧
+    (driftPass [0, 1] twoPoolsState twoPools).panicked = false ∧
+    (driftPass [0, 1] twoPoolsState twoPools).results.map (·.started) = [1, 1] ∧
+    reservedOf (driftPass [0, 1] twoPoolsState twoPools).st 1 = 0 ∧
+    reservedOf (driftPass [0, 1] twoPoolsState twoPools).st 2 = 0 := by decide
 
 /-- two launched NodeClaims (2, 3), both drifted, budget 1, limit 3 -/
 def driftWitnessState : State := update (update State.init 1 2 false) 1 3 false
@@ -405,6 +462,18 @@ example : wfTrace Ledger.init busyHistory (observations .asIs State.init busyHis
 
 example : accepts Ledger.init busyHistory (observations .asIs State.init busyHistory) = true :=
   C03_static_safe_partial busyHistory State.init Ledger.init refines_init (by decide) (by decide)
+
+/-- a pass over two pools in which every hypothesis of `C03_drift_pass_gives_slots_back` holds and something happens:
+    both pools get a command, a replacement each, and the counts move -/
+example : (∀ q, 0 ≤ reservedOf twoPoolsState q) ∧
+    (Karp.StaticPool.driftPass Karp.Gen.C03Pool.staticDriftCapArgs twoPoolsState twoPools).results.map (·.created) = [1, 1] ∧
+    counts (Karp.StaticPool.driftPass Karp.Gen.C03Pool.staticDriftCapArgs twoPoolsState twoPools).st 2 = (1, 1, 0) := by
+  refine ⟨fun q => ?_, by decide, by decide⟩
+  have : reservedOf twoPoolsState q = 0 := by
+    unfold twoPoolsState
+    rw [Karp.StaticPool.reservedOf_update, Karp.StaticPool.reservedOf_update]
+    rfl
+  omega
 
 example : provisionGrant 1 1 0 1 5 4 = 1 ∧ provisionGrant 2 0 0 0 5 7 = 3 ∧ deprovisionCount 5 3 = 2 := by decide
 
